@@ -15,6 +15,11 @@ class Hamiltonian(CallableModel):
         super().__init__(id_)
         self.joint = joint
 
+    def __call__(self, *args, **kwargs) -> Tensor:
+        # the value depends on the momentum (and mass matrix) handed in, which are
+        # arguments and not parameters: it cannot be cached between notifications
+        return self._call(*args, **kwargs)
+
     def _call(self, *args, **kwargs) -> Tensor:
         momentum: Tensor = kwargs["momentum"]
         if "inverse_mass_matrix" in kwargs:
